@@ -685,10 +685,14 @@ func handleRename(params internal.HandlerFuncParams) ([]byte, error) {
 		return []byte("+OK\r\n"), nil
 	}
 
+	// The deadline travels with the key.
+	oldExpireAt := params.GetExpiry(params.Context, oldKey)
+
 	// Set the new key with the old value
 	if err := params.SetValues(params.Context, map[string]interface{}{newKey: oldValue}); err != nil {
 		return nil, err
 	}
+	params.SetExpiry(params.Context, newKey, oldExpireAt, false)
 
 	// Delete the old key
 	if err := params.DeleteKey(params.Context, oldKey); err != nil {
